@@ -65,7 +65,7 @@ Definition mirror_tail (fresh : Z) (self : gstate) (upd supp coll : bool) (st : 
                           do tl <- py_sub l hl;;
                           do h <- edge_head te;;
                           do tn <- edge_tail te;;
-                          do (self, ns) <- op_split_edge fresh self tn h (Some tl) hl;;
+                          do (self, ns) <- op_split_block fresh self tn h hl (Some tl);;
                           do self <- op_reseed_at self ns false supp false;;
                           Ok (self, ns)));;
   let self := op_set_rooted self (Some true) in
@@ -410,7 +410,7 @@ Proof.
     fin upd.
   - destruct W as [Y [rest [-> [HY [HL Hr]]]]]. cbn [bind mirror_tail is_some orb negb edge_length].
     rewrite HL. cbn [py_sub bind edge_head rd_edge edge_tail rd_parent].
-    destruct rest as [|R0 rest']; [congruence|]. cbn [bind]. unfold op_split_edge. cbn [nid bind g_tree g_rooted].
+    destruct rest as [|R0 rest']; [congruence|]. cbn [bind]. unfold op_split_block, op_split_edge. cbn [nid bind g_tree g_rooted].
     rewrite HY. replace (hl + tl - hl) with tl by lia. unfold model_tail. cbn [bind].
     destruct (split_edge hd fresh (Some tl) (Some hl) t) as [t1|]; [|reflexivity].
     cbn [bind]. unfold op_reseed_at. cbn [nid bind t_id g_tree g_rooted].
